@@ -270,3 +270,28 @@ func (r *vhRecorder) Log(phase int, alg, key string, val any) {
 }
 
 var _ imonitor.Monitor = (*vhRecorder)(nil)
+
+// vhObserveLayout records the complete result for translator validation: the engine evaluates
+// these terms under sampled input values, the driver runs the natively compiled harness on the
+// same values and compares the two lists.
+func vhObserveLayout(l graph.Layout) {
+	vhObserveInt("nodes", len(l.Nodes))
+	for _, n := range l.Nodes {
+		vhObserveStr("id", n.ID)
+		vhObserveReal("x", n.X)
+		vhObserveReal("y", n.Y)
+		vhObserveReal("w", n.W)
+		vhObserveReal("h", n.H)
+	}
+	vhObserveInt("edges", len(l.Edges))
+	for _, e := range l.Edges {
+		vhObserveStr("from", e.FromID)
+		vhObserveStr("to", e.ToID)
+		vhObserveBool("arrowstart", e.ArrowHeadStart)
+		vhObserveInt("npoints", len(e.Points))
+		for _, p := range e.Points {
+			vhObserveReal("px", p[0])
+			vhObserveReal("py", p[1])
+		}
+	}
+}
